@@ -268,9 +268,9 @@ pub fn record(args: &Args) {
         }
     }
 
-    // the inputs on which the pinned tree panicked (repaired: P3, R7, R8, R9) are always asked again, whatever the sampling
+    // the inputs on which the pinned tree panicked (repaired: P3, R7, R8, R9, R23) are always asked again, whatever the sampling
     inputs.extend(
-        ["2020-2030/65535", "2020-9999/65535 10:00-12:00", "10:00-12:00/30", "10:00-16:00/01:30", "Mo[1] +2147483647 days", "PH -2147483648 day",
+        ["2020-2030/65535", "2020-9999/65535 10:00-12:00", "10:00-12:00/30", "10:00-16:00/01:30", "10:00-16:00/24:00", "Mo 00:00-24:00/24:00 ; (dawn+24:00)-25:00", "Mo[1] +2147483647 days", "PH -2147483648 day",
          "Jun 7+Tu +999999999 days", "(dusk+23:00)-10:00", "(dusk+10:00)-26:00", "(sunrise+23:59)-(dawn-23:59)", "(sunset-23:00)-02:00"]
             .iter()
             .map(|s| s.to_string()),
